@@ -119,6 +119,30 @@ Definition cmd_repr (c : cfg) (o : obj) : sexp :=
   | Ok (_, sp) => enc_res (fun l => SL (map enc_rtok l)) (Repr.arr_repr sp)
   end.
 
+(* cmd 29: the references a leaf iterator owns after k successful next() calls (Alias.v iter_owned):
+   the objects pending on its agenda (the collector reports them together with the root and the predicate) *)
+Fixpoint iter_advance (c : cfg) (steps k : nat) (ag : agenda) : res agenda :=
+  match k with
+  | O => Ok ag
+  | S k' =>
+    do r <- iter_next c steps ag ;;
+    match r with
+    | None => Ok []
+    | Some (_, ag') => iter_advance c steps k' ag'
+    end
+  end.
+Definition cmd_iter_gc (c : cfg) (o : obj) (k : nat) : sexp :=
+  match iter_advance c (S (iter_bound c o)) k [(o, S (c_limit c))] with
+  | Err e => enc_err e
+  | Ok ag =>
+    let s := {| Alias.it_root := o; Alias.it_agenda := ag;
+                Alias.it_has_pred := match c_pred c with Some _ => true | None => false end |} in
+    SL [SI 0;
+        enc_objs (flat_map (fun r => match r with Alias.IPending x => [x] | _ => [] end) (Alias.iter_owned s));
+        enc_bool (existsb (fun r => match r with Alias.IRoot => true | _ => false end) (Alias.iter_owned s));
+        enc_bool (existsb (fun r => match r with Alias.IPredicate => true | _ => false end) (Alias.iter_owned s))]
+  end.
+
 (* cmd 25: prefix_errors(prefix tree, full tree) — the list of (key path, error kind) *)
 Definition enc_pek (k : PrefixErr.pek) : sexp :=
   SI match k with PrefixErr.PEType => 0 | PrefixErr.PEKeys => 1 | PrefixErr.PEArity => 2 | PrefixErr.PEMeta => 3 end.
@@ -624,6 +648,11 @@ Definition run (s : sexp) : sexp :=
       SL [SI 0; SL (map (fun i => match Dataclass.dc_entry_field fs' i with Some n => SI n | None => SL [] end)
                         (seq 0 (length (Dataclass.init_fields fs'))))]
     | None => bad
+    end
+  | SL [SI 29; c; o; SI k] =>
+    match dec_cfg c, dec_obj o with
+    | Some c', Some o' => cmd_iter_gc c' o' (Z.to_nat k)
+    | _, _ => bad
     end
   | SL [SI 28; c; o] =>
     match dec_cfg c, dec_obj o with
